@@ -18,9 +18,9 @@ Ok (start)
 )) ;;
 Ok (VTuple [start; stop]).
 
-(* fragment g_dok_bounds_neg from sparse/numba_backend/_dok.py:DOK._setitem selector=('else', 'step > 0') srchash=5cd76dd7835ddb83 *)
+(* fragment g_dok_bounds_neg from sparse/numba_backend/_dok.py:DOK._setitem selector=('else', 'step > 0') srchash=58040d1c614ad677 *)
 Definition g_dok_bounds_neg (ind : pyv) (dim : pyv) : res pyv :=
-start <- (t9_ <- (attr_start ind) ;; if cond t9_ then Ok t9_ else (t8_ <- Ok dim ;; py_sub t8_ (VInt (1)))) ;;
+start <- (t9_ <- (t8_ <- (attr_start ind) ;; py_is_not_none t8_) ;; if cond t9_ then (attr_start ind) else (t10_ <- Ok dim ;; py_sub t10_ (VInt (1)))) ;;
 stop <- (t7_ <- (t6_ <- (attr_stop ind) ;; py_is_not_none t6_) ;; if cond t7_ then (attr_stop ind) else Ok (VInt (-1))) ;;
 start <- (t4_ <- (t3_ <- Ok dim ;; py_sub t3_ (VInt (1))) ;; t5_ <- py_min2 start t4_ ;; Ok t5_) ;;
 stop <- (t2_ <- py_max2 stop (VInt (-1)) ;; Ok t2_) ;;
